@@ -315,10 +315,8 @@ impl ValueWriter<'_, '_> {
                     assert(buf.all().subrange(verif_b0.len() as int, verif_b0.len() as int + 3) =~= name_head(name));
                  }"""),
              # hints for the truncate-on-skip of one observation (optional: they help the call they are attached to)
-             ("before", "let buf_index", "let ghost verif_bk = buf.all();", None, True),
-             ("before", "let counts_index", "let ghost verif_ck = counts.all();", None, True),
-             ("before", "buf . truncate ( buf_index ) ;", "proof { assert(buf.all().take(verif_bk.len() as int) =~= verif_bk); assert(blen(buf.all().take(verif_bk.len() as int)) == buf_index); }", None, True),
-             ("before", "counts . truncate ( counts_index ) ;", "proof { assert(counts.all().take(verif_ck.len() as int) =~= verif_ck); assert(blen(counts.all().take(verif_ck.len() as int)) == counts_index); }", None, True),
+             ("before", "buf . truncate ( buf_index ) ;", "proof { assert(buf.all().take(verif_bk0.len() as int) =~= verif_bk0); assert(blen(buf.all().take(verif_bk0.len() as int)) == buf_index); }", None, True),
+             ("before", "counts . truncate ( counts_index ) ;", "proof { assert(counts.all().take(verif_ck0.len() as int) =~= verif_ck0); assert(blen(counts.all().take(verif_ck0.len() as int)) == counts_index); }", None, True),
              ("after", "Some ( observation ) => {",
               "let ghost verif_wa = wrote_anything; let ghost verif_bk0 = buf.all(); let ghost verif_ck0 = counts.all();"),
              ("before", "wrote_anything = wrote_anything || wrote ;",
